@@ -393,6 +393,18 @@ def Skel.inplaceRun : List Site := [.call "vertex->run"]
 open Babylon.Core in
 def Skel.poolRun : List Site := [.call "_executor.submit", .call "vertex->run"]
 
+/-- `reset()` of dependency / vertex / data / graph, whitespace-free: every field the model's `reset` event
+re-initialises (`State.init`) is re-initialised by the code — `_waiting_num`, `_established`, `_ready`;
+`_activated`, `_waiting_num`, `_closure`; `_acquired`, `_empty`, `_active`, `_closure`, `_depend_state`, the value -/
+def Skel.resetDependency : String :=
+  "{_waiting_num.store(0,::std::memory_order_relaxed);_established=false;_ready=false;}"
+def Skel.resetVertex : String :=
+  "{_activated.store(false,::std::memory_order_relaxed);_waiting_num.store(0,::std::memory_order_relaxed);_closure=nullptr;for(auto&denpendency:_dependencies){denpendency.reset();}_runnable_vertexes=nullptr;_processor->reset(*this);}"
+def Skel.resetData : String :=
+  "{_acquired.store(false,::std::memory_order_relaxed);_empty=true;_has_preset_value=false;_active=false;_closure.store(nullptr,::std::memory_order_relaxed);_depend_state.store(0,::std::memory_order_relaxed);_producer_done_num.store(0,::std::memory_order_relaxed);_on_reset(_data);}"
+def Skel.resetGraph : String :=
+  "{for(auto&one_data:_data){one_data.reset();}for(auto&vertex:_vertexes){vertex.reset();}_memory_resource.release();_reusable_manager.clear();}"
+
 /-- the processors of the harness (harness/c05.cpp `mix`) -/
 def mix (vid : Nat) (ins : List (Option Val)) (k : Nat) : Option Val :=
   let h := ins.foldl (fun h i => (h * 1000003 + (match i with | some v => v + 1 | none => 0)) % 1000000007) (vid * 31 + k * 7 + 1)
